@@ -114,6 +114,8 @@ func c10KeyOf(row *c10Row, col string) (null bool, v any) {
 			return true, nil
 		}
 		return false, int64(row.O3)
+	case "p":
+		return false, row.P
 	case "g.x":
 		if row.G == nil || row.G.X == nil {
 			return true, nil
@@ -141,6 +143,22 @@ func cmpAny(a, b any) int {
 		case x < y:
 			return -1
 		case x > y:
+			return 1
+		}
+	case []int64:
+		y := b.([]int64)
+		for i := 0; i < len(x) && i < len(y); i++ {
+			if x[i] != y[i] {
+				if x[i] < y[i] {
+					return -1
+				}
+				return 1
+			}
+		}
+		switch {
+		case len(x) < len(y):
+			return -1
+		case len(x) > len(y):
 			return 1
 		}
 	case bool:
@@ -186,6 +204,9 @@ func c10Compare(a, b *c10Row, keys []sortKey) int {
 	return 0
 }
 
+// c10RepeatedKey: the case sorts on the repeated column p (set by runC10 before any row is generated).
+var c10RepeatedKey bool
+
 func c10GenRows(r *gen.Rand, n, idBase int) []c10Row {
 	rows := make([]c10Row, n)
 	nulls2, nullsOS, nulls3 := r.NullPattern(n), r.NullPattern(n), r.NullPattern(n)
@@ -212,7 +233,13 @@ func c10GenRows(r *gen.Rand, n, idBase int) []c10Row {
 		}
 		row.F = r.F64(false)
 		row.B = r.Bool()
-		if r.P(60) {
+		if c10RepeatedKey {
+			// the repeated column is the sort key: short non-empty lists over three values, so that rows share prefixes
+			row.P = make([]int64, 1+r.Intn(3))
+			for j := range row.P {
+				row.P[j] = int64(1 + r.Intn(3))
+			}
+		} else if r.P(60) {
 			row.P = make([]int64, r.Intn(4))
 			for j := range row.P {
 				row.P[j] = int64(row.ID*10 + int64(j))
@@ -242,6 +269,10 @@ func c10GenRows(r *gen.Rand, n, idBase int) []c10Row {
 
 func c10PickKeys(r *gen.Rand) []sortKey {
 	cols := []string{"k1", "k2", "s", "os", "f", "b", "o3", "g.x"}
+	if r.P(10) {
+		// a repeated column as the only key, ascending: rows compare element by element, a prefix comes first
+		return []sortKey{{col: "p"}}
+	}
 	n := 1 + r.Intn(2)
 	var keys []sortKey
 	used := map[string]bool{}
@@ -365,6 +396,10 @@ func runC10(c *Ctx) {
 	te := typeByName("c10row")
 	schema := te.ops.Schema()
 	keys := c10PickKeys(r)
+	c10RepeatedKey = keys[0].col == "p"
+	if c10RepeatedKey {
+		c.Obs("repeated_sort_key", 1)
+	}
 	var scs []parquet.SortingColumn
 	var kdesc []string
 	for _, k := range keys {
